@@ -166,6 +166,8 @@ def adapt_predicates(c, ri):
     elif kind == 5:
         want = [L[-1]] if L[k:] else [-2]
     elif kind == 6:
+        if len(log) < 2:
+            return ["iter().size_hint() followed by the cells gave the truncated log %s" % log]
         lo, hi = log[0], log[1]
         if lo > len(L) or (hi != -1 and hi < len(L)):
             return ["iter().size_hint() = (%d, %s) excludes the actual number of cells %d" % (lo, hi, len(L))]
